@@ -9,6 +9,7 @@ import (
 	"os"
 	"os/exec"
 	"path/filepath"
+	"runtime"
 	"strconv"
 	"strings"
 	"sync"
@@ -173,6 +174,9 @@ func genC07Storm(seed int64, round, n, m int, stall bool) *c07Spec {
 	s := &c07Spec{seed: seed, round: round, burst: true, storm: m, maxN: n, n: n, stall: stall}
 	for i := 0; i < n; i++ {
 		t := &c07Tun{idx: i, kind: []string{"ws", "legacy"}[rng.Intn(2)], idForm: rng.Intn(5), tokCase: "own", other: i, expectOpn: true, nUp: m, nDown: m, end: "none"}
+		if stall && i%2 == 0 && i%4 != 0 {
+			t.kind = "legacy" // the legacy transport hands packets to the socket without a buffer of its own
+		}
 		s.tuns = append(s.tuns, t)
 		s.evs = append(s.evs, c07Ev{t: i, op: "out"})
 		if t.kind == "legacy" {
@@ -879,12 +883,21 @@ func runC07(r *Run) {
 		if round%6 == 5 {
 			spec = genC07Storm(r.Seed, round, r.N(8, 32), r.N(150, 600), false)
 		}
-		if round%12 == 3 {
-			spec = genC07Storm(r.Seed, round, r.N(8, 24), r.N(100, 300), true)
+		if round%12 == 3 || round%12 == 9 {
+			// late readers behind small receive buffers, large host payloads: a packet held back by one
+			// client's full pipe while the other tunnels keep producing packets
+			spec = genC07Storm(r.Seed, round, r.N(12, 24), r.N(120, 300), true)
 		}
 		rd := setupC07Round(spec, gws, idp, -1)
 		r.Breadcrumb(spec.String())
-		rd.run()
+		if spec.stall {
+			// as on a small machine: the gateway's goroutines share two processors
+			prev := runtime.GOMAXPROCS(2)
+			rd.run()
+			runtime.GOMAXPROCS(prev)
+		} else {
+			rd.run()
+		}
 		obs := map[int]string{}
 		for _, l := range rd.live {
 			obs[l.t.idx] = rd.observed(l)
